@@ -26,8 +26,9 @@ var schema = base.MustNewLogSchema(fieldNames)
 
 // realInstance is one freshly built transform chain with its own counter registry.
 type realInstance struct {
-	funcs  []base.LogTransformFunc
-	lookup btest.LookupStubCustomerCounterFunc
+	funcs      []base.LogTransformFunc
+	lookup     btest.LookupStubCustomerCounterFunc
+	lastRecord *base.LogRecord // the live record of the most recent run
 }
 
 // loadReal parses and verifies; a non-nil error means the configuration is rejected (out of scope: C16).
@@ -67,10 +68,12 @@ func freshFields(vals []string) base.LogFields {
 // run executes the chain on a fresh record built from in.
 func (ri *realInstance) run(in *Rec) (out *Rec, dropped bool) {
 	rec := schema.NewTestRecord1(freshFields(in.F))
+	ri.lastRecord = rec
 	rec.RawLength = in.RawLength
 	rec.Unescaped = in.Unescaped
 	res := bsupport.RunTransforms(rec, ri.funcs)
-	// copy out immediately: later runs on the same instance may legitimately reuse buffers
+	// copy out immediately (the oracle compares this snapshot); the live record is kept too: records are buffered in batches
+	// behind the input-side transforms, so a later record through the same instance must not change an earlier one
 	out = &Rec{F: make([]string, len(rec.Fields)), Unescaped: rec.Unescaped, RawLength: rec.RawLength}
 	for i, f := range rec.Fields {
 		out.F[i] = strings.Clone(f)
@@ -181,6 +184,8 @@ func checkProgram(keyScope string, prog []*Step, in, in2 *Rec) (string, string) 
 	labels := dropLabels(prog)
 	ri := newRealInstance(cfgs)
 	counters := map[string]counter{}
+	var firstLive *base.LogRecord
+	var firstSnap *Rec
 	for round, rec := range []*Rec{in, in2} {
 		if rec == nil {
 			break
@@ -188,6 +193,19 @@ func checkProgram(keyScope string, prog []*Step, in, in2 *Rec) (string, string) 
 		var real *Rec
 		var dropped bool
 		site, detail := seq.Catch(func() { real, dropped = ri.run(rec) })
+		if site == "" && round == 0 {
+			firstLive, firstSnap = ri.lastRecord, real
+		}
+		if site == "" && round == 1 && firstLive != nil {
+			// the earlier record is still alive (e.g. buffered in the same batch): it must not have been changed by
+			// the later record going through the same transform instances
+			for i, f := range firstLive.Fields {
+				if i < len(firstSnap.F) && f != firstSnap.F[i] {
+					return "earlier-record-changed-by-later-record:" + keyScope, fmt.Sprintf("field %s of the first record was %q after its own transformation and reads %q after a second record went through the same instance\nfirst  %s\nsecond %s\n%s",
+						fieldNames[i], firstSnap.F[i], f, describeRec(in), describeRec(rec), yamlText)
+				}
+			}
+		}
 		if site != "" {
 			key := "panic:" + site
 			if round == 1 {
